@@ -9,10 +9,11 @@ that is reset by none of  init()/initialize()/clean_up()/UnLoadDatabase/read_inp
 -/
 namespace PhreeqcVerif.ResetPolicy
 
-/-- written by an input reader, not reset by the load path, but overwritten or emptied before the value can reach a result -/
+/-- written by an input reader, not reset by the load path, but overwritten or emptied before the value can reach a result.
+    (`run_info` was a candidate and is NOT healed: a RUN_CELLS request of a run that stopped on an error is executed by the
+    test run of the next LoadDatabase — "Beginning of run as cells." in its output; finding key `unreset-run-info`.) -/
 def healed : List (String × String) :=
-  [("run_info", "read_run_cells assigns a freshly constructed runner (`run_info = r`) before run_as_cells reads it; run_as_cells returns at once while run_info.cells is undefined"),
-   ("delete_info", "test_db (run by every successful load) feeds a DELETE block; delete_entities then executes and calls delete_info.SetAll(false) on the still empty instance"),
+  [("delete_info", "test_db (run by every successful load) feeds a DELETE block; delete_entities then executes and calls delete_info.SetAll(false) on the still empty instance"),
    ("unnumbered_solutions", "tidy_solutions (first call after the load, i.e. test_db) numbers and clears it; rows come only from SOLUTION_SPREAD lines without a number"),
    ("gfw_map", "read_master_species ends with gfw_map.clear(); every loadable database has SOLUTION_MASTER_SPECIES"),
    ("rates_map", "read_rates ends with rates_map.clear(); a cache from interned name to index in `rates`, consulted by rate_search only")]
